@@ -14,7 +14,9 @@ RULE = ("random point clouds (3..30 points, 1-D and 2-D arrays, coordinate scale
         "disjoint ranges), every second case with the same estimator instance first fitted to ANOTHER data set of a different size "
         "(Jacobian of the certificate from the estimator's force coordinates after the measured fit; a Spline without "
         "force_coords must have its forces at the current data), Trend degree 0..4, Spline with damping None or log-uniform in [1e-8,1e2], forces at the data or at a "
-        "separate smaller set, mindist variants, VectorSpline2D with poisson in [-1,1] incl. the end points. For each fit the "
+        "separate smaller or same-size set or the data points themselves passed through force_coords in another order, mindist "
+        "variants (None, 0, default 10e3), VectorSpline2D with poisson in [-1,1] and EXACTLY -1, 0, 1, 0.5 in half of the cases "
+        "(each meeting damped / undamped and both force layouts), damping end points 1e-8 and 1e2 exactly. For each fit the "
         "implementation's own Jacobian, the data, weights, damping, fitted parameters and predictions go to Coq as exact dyadics; "
         "Coq evaluates the normal-equation residual of the property's objective exactly and requires it below 2^-30 of its "
         "floating-point evaluation bound (holds) and the predictions to equal Jacobian x parameters (agree). Metamorphic streams: "
@@ -262,10 +264,21 @@ def gen_spline(rnd, i):
     e, nn, scale = make_cloud(rnd, n, offset=rnd.choice([0.0, 0.0, 1.0, 100.0]) * rnd.uniform(-1, 1))
     data = np.array([rnd.gauss(0, 1) for _ in range(n)]) * 10.0 ** rnd.uniform(-2, 3)
     damping = None if i % 3 == 0 else 10.0 ** rnd.uniform(-8, 2)
-    mind = rnd.choice([None, None, 1e-5 * scale, 0.05 * scale, 0.0])
+    if i % 12 in (1, 7):
+        damping = [1e-8, 1e2][(i // 12) % 2]       # the end points of the documented damping range, exactly
+    mind = [None, 0.0, None, 1e-5 * scale, 0.05 * scale][(i // 2) % 5]
     conf = {"damping": damping, "mindist": mind}
+    if at_data and i % 8 in (2, 4):
+        # forces AT the data points but handed over through force_coords in another order (shuffled / sorted)
+        idx = list(range(n))
+        if i % 8 == 4:
+            idx = [int(j) for j in np.argsort(e, kind="stable")[::-1]]
+        else:
+            rnd.shuffle(idx)
+        conf["force_coords"] = [e[idx].tolist(), nn[idx].tolist()]
+        conf["force_mode"] = "data-points-reordered"
     if not at_data:
-        k = rnd.randint(2, min(15, n - 1))
+        k = n if (i // 2) % 3 == 1 and n <= 15 else rnd.randint(2, min(15, n - 1))      # same-size separate sets too
         fe = e.min() + (e.max() - e.min()) * np.array([rnd.uniform(-0.1, 1.1) for _ in range(k)])
         fn = nn.min() + (nn.max() - nn.min()) * np.array([rnd.uniform(-0.1, 1.1) for _ in range(k)])
         conf["force_coords"] = [fe.tolist(), fn.tolist()]
@@ -282,12 +295,23 @@ def gen_vector(rnd, i):
     de = np.array([rnd.gauss(0, 1) for _ in range(n)]) * 10.0 ** rnd.uniform(-2, 2)
     dn = np.array([rnd.gauss(0, 1) for _ in range(n)]) * 10.0 ** rnd.uniform(-2, 2) + rnd.choice([0.0, 5.0])
     damping = None if i % 3 == 0 else 10.0 ** rnd.uniform(-8, 2)
-    poisson = rnd.choice([-1.0, 1.0, 0.5, 0.0]) if i % 4 == 0 else rnd.uniform(-1, 1)
+    if i % 12 in (1, 7):
+        damping = [1e-8, 1e2][(i // 12) % 2]
+    # documented special Poisson ratios hit EXACTLY in half of the cases, cycling so that each of -1 (uncoupled), 0, 1,
+    # 0.5 (default) meets damped / undamped and forces at the data / separate (periods 2, 3, 8 are coprime enough: 24)
+    poisson = [-1.0, 0.0, 1.0, 0.5][(i // 4) % 4] if (i // 2) % 2 == 1 else rnd.uniform(-1, 1)
     conf = {"poisson": poisson, "mindist": scale * 10.0 ** rnd.uniform(-2, 0), "damping": damping}
     if i % 7 == 0:
         conf["mindist"] = 10e3   # the default
+    if i % 7 == 3 and not at_data:
+        conf["mindist"] = 0.0    # allowed when no force coincides with a data point
+    if at_data and i % 8 == 4:
+        idx = list(range(n))
+        rnd.shuffle(idx)
+        conf["force_coords"] = [e[idx].tolist(), nn[idx].tolist()]
+        conf["force_mode"] = "data-points-reordered"
     if not at_data:
-        k = rnd.randint(2, min(10, n - 1))
+        k = n if i % 6 == 5 else rnd.randint(2, min(10, n - 1))
         fe = e.min() + (e.max() - e.min()) * np.array([rnd.uniform(-0.1, 1.1) for _ in range(k)])
         fn = nn.min() + (nn.max() - nn.min()) * np.array([rnd.uniform(-0.1, 1.1) for _ in range(k)])
         conf["force_coords"] = [fe.tolist(), fn.tolist()]
@@ -408,14 +432,17 @@ def generate(tier, seed):
         k, conf, coords, data, w = gen_spline(rnd, i)
         cases.append(fit_case(k, conf, coords, data, w,
                               stream="spline-%s-%s" % ("damped" if conf["damping"] is not None else "undamped",
+                                                       "forces-reordered-data" if conf.get("force_mode") else
                                                        "forces-separate" if "force_coords" in conf else "forces-at-data"),
                               prefit=other(gen_spline, (i // 2) % 2 + 2 * (i // 4))))
     for i in range(nfit[2]):
         k, conf, coords, data, w = gen_vector(rnd, i)
         # VectorSpline2D documents that it keeps the force locations of its first fit: refit only with explicit forces
         cases.append(fit_case(k, conf, coords, data, w,
-                              stream="vector-%s-%s" % ("damped" if conf["damping"] is not None else "undamped",
-                                                       "forces-separate" if "force_coords" in conf else "forces-at-data"),
+                              stream="vector-%s-%s%s" % ("damped" if conf["damping"] is not None else "undamped",
+                                                         "forces-reordered-data" if conf.get("force_mode") else
+                                                         "forces-separate" if "force_coords" in conf else "forces-at-data",
+                                                         "-poisson%g" % conf["poisson"] if conf["poisson"] in (-1.0, 0.0, 1.0) else ""),
                               prefit=other(gen_vector, (i // 2) % 2 + 2 * (i // 4)) if "force_coords" in conf else None))
     for i in range(nmeta[0]):
         cases.append(gen_weights_times_constant(rnd, i))
